@@ -486,3 +486,52 @@ Proof.
   destruct (base_reg_first_reg _ Hb) as [i Hf]. rewrite Hf.
   apply s_params_sim. exact Hf.
 Qed.
+
+(* ---- a visible read-only variable refuses unset and assignment, with or without a value ------- *)
+
+Lemma span_ge_zero st : span_ge 0 st = (st, []).
+Proof.
+  induction st as [|[v j] rest IH]; cbn [span_ge]; [reflexivity|].
+  cbn [Nat.leb]. rewrite IH. reflexivity.
+Qed.
+
+Lemma get_stack s n w : get s n = Some w -> exists i rest, stack_of s n = (w, i) :: rest.
+Proof.
+  unfold get. destruct (stack_of s n) as [|[v i] rest]; [discriminate|]. intros [= ->]. eauto.
+Qed.
+
+Lemma unset_refused_lemma s n w loc :
+  get s n = Some w -> vro w = Some loc ->
+  step s (OUnset n SGlobal) = Some (s, RUnsetErr loc).
+Proof.
+  intros Hg Hro. destruct (get_stack _ _ _ Hg) as (i & rest & Hst).
+  cbn [step]. unfold stack_of in Hst. destruct (assoc n (vars s)) as [st|]; [|discriminate]. subst st.
+  cbn [index_of_context]. rewrite span_ge_zero. cbn [first_ro]. rewrite Hro. reflexivity.
+Qed.
+
+Lemma assign_refused_lemma s n w loc x l :
+  Inv s -> get s n = Some w -> vro w = Some loc ->
+  exists s', step s (OGetOrNew n SGlobal [MAssign x l]) = Some (s', RMuts [AErr loc]).
+Proof.
+  intros [_ (ps0 & cs0 & Ecs) Hs] Hg Hro. destruct (get_stack _ _ _ Hg) as (i & rest & Hst).
+  specialize (Hs n). rewrite Hst in Hs.
+  cbn [step get_or_new_stack]. rewrite Hst. cbn [gon_loop].
+  replace (i <? 0) with false by (symmetry; apply Nat.ltb_ge; lia).
+  pose proof Hs as Hs'. cbn in Hs'. destruct Hs' as (Hi & Hrest & _).
+  destruct (nth_error (ctxs s) i) as [[ps|]|] eqn:En.
+  - cbn [or_var mutate_all mutate]. rewrite Hro. eauto.
+  - cbn [or_var].
+    assert (H0 : 0 < length (ctxs s)) by (rewrite Ecs; cbn; lia).
+    assert (Hb : stack_ok (ctxs s) (length (ctxs s)) rest) by (eapply stack_ok_weaken; [|exact Hrest]; lia).
+    destruct (gon_loop (ctxs s) 0 (Some w) rest) as [st1|] eqn:El.
+    + destruct (gon_loop_carried _ _ _ _ _ _ Hb H0 El) as (i' & rest1 & -> & _).
+      cbn [mutate_all mutate]. rewrite Hro. eauto.
+    + exfalso. clear - Hb El. revert El. generalize (Some w) as removed.
+      induction rest as [|[v j] rest IH]; intros removed; cbn [gon_loop]; [discriminate|].
+      replace (j <? 0) with false by (symmetry; apply Nat.ltb_ge; lia).
+      pose proof Hb as Hb'. cbn in Hb'. destruct Hb' as (Hj & Hr & _).
+      destruct (nth_error (ctxs s) j) as [[ps|]|] eqn:En; [discriminate| |].
+      * apply IH. eapply stack_ok_weaken; [|exact Hr]. lia.
+      * apply nth_error_None in En. lia.
+  - exfalso. apply nth_error_None in En. lia.
+Qed.
